@@ -124,6 +124,20 @@ type c06T18 struct { // pointer type that points to itself
 	B string     `@Int`
 }
 
+// Left recursion hidden behind productions that can match nothing only through a child visited later:
+// Build is expected to reject these; if it ever accepts one, parsing must still not recurse without end.
+type c06LRSign struct {
+	Neg bool `@"-"?`
+}
+type c06LRPrefix struct {
+	S c06LRSign `@@`
+}
+type c06LRExpr struct {
+	P    c06LRPrefix `@@`
+	Rec  *c06LRExpr  `( @@ "+" )?`
+	Name string      `@Ident`
+}
+
 func c06B[T any]() func() (gram.Built, error) {
 	return func() (gram.Built, error) {
 		p, err := participle.Build[T]()
@@ -154,12 +168,13 @@ var c06TargetCases = []struct {
 	{"slice of slices of TextUnmarshaler", c06B[c06T14]()},
 	{"TextUnmarshaler slice filled across a repetition and an optional pointer", c06B[c06T15]()},
 	{"map of TextUnmarshaler", c06B[c06T16]()},
+	{"left recursion behind a production that is nullable only through a later child (Build should reject)", c06B[c06LRExpr]()},
 	{"slice type whose element type is itself", c06B[c06T17]()},
 	{"pointer type that points to itself", c06B[c06T18]()},
 }
 
 func c06Targets(c *mon.Child) {
-	inputs := []string{"", "a", "a b", "a b c d", "1", "1 2", "a 1", "a 1 b 2", "bad", "a bad", "a b bad", "t", "t u u", `"s"`, "a, b, c", "a, b ; c", "; c", "f 1.5 f 2.5", "1 a", "a a 1 1", "99999999999999999999", "a b 1 x \"s\" t"}
+	inputs := []string{"", "a", "a b", "a b c d", "1", "1 2", "a 1", "a 1 b 2", "a + b", "- a + b", "bad", "a bad", "a b bad", "t", "t u u", `"s"`, "a, b, c", "a, b ; c", "; c", "f 1.5 f 2.5", "1 a", "a a 1 1", "99999999999999999999", "a b 1 x \"s\" t"}
 	for i, tc := range c06TargetCases {
 		key := fmt.Sprintf("target%d", i)
 		if !c.Want(key) {
